@@ -569,7 +569,7 @@ def malformed_from(rng, pools):
     return f"{w()} {b()} {int(rng.integers(0, 9))} {cm()} {int(rng.integers(0, 9))}"
 
 
-NCASES = {"quick": dict(d1=200, d2=220, rand=350, flat=220, malformed=90, spacing=100),
+NCASES = {"quick": dict(d1=200, d2=220, rand=300, flat=220, malformed=90, spacing=100),
           "thorough": dict(rand=7000, flat=3000, malformed=2500, spacing=1500)}
 MAXTOK = {"quick": 40, "thorough": 60}
 
@@ -1132,9 +1132,12 @@ def _spacing_key(J, p, r):
 
 
 def evidence_extra(records, dones, tier):
+    # only cases with a violation are forwarded in full; totals per kind are in observed["case-kind"]
     kinds = {}
     for r in records:
-        k = r["case"].get("kind")
-        kinds[k] = kinds.get(k, 0) + 1
-    return dict(cases_by_kind=kinds, exhaustive_scope="all trees of depth <= 2 over 4 terms x {not,!} x {and,&&,or,||} "
-                "and all depth-1 combinations of 21 terms" if tier == "thorough" else "seeded sample of that scope")
+        if r.get("violations"):
+            k = r["case"].get("kind")
+            kinds[k] = kinds.get(k, 0) + 1
+    return dict(violating_cases_by_kind=kinds,
+                exhaustive_scope="all trees of depth <= 2 over 4 terms x {not,!} x {and,&&,or,||} and all depth-1 "
+                "combinations of 21 terms" if tier == "thorough" else "seeded sample of that scope")
